@@ -1,6 +1,7 @@
 import PvModel.Props.C16
 import PvModel.Props.C16Rel
 import PvModel.Props.C16Keys
+import PvModel.Props.C17Enforce
 #print axioms Pv.C16_ground_plus
 #print axioms Pv.C16_ground_minus
 #print axioms Pv.C16_ground_times
@@ -27,3 +28,4 @@ import PvModel.Props.C16Keys
 #print axioms Pv.C16_run_constraints_tight
 #print axioms Pv.C16_labelled_answer_sound
 #print axioms Pv.C16_label_step
+#print axioms Pv.C16_enforce_answers_sound
